@@ -82,7 +82,24 @@ func (p *c03) gen(seed uint64, idx int) c03Case {
 		}
 		return "{" + strings.Join(parts, ", ") + "}"
 	}
+	// hash literals with integer and digit-string keys (0-based runs, gaps, collisions between the two operands of a merge)
+	ihash := func(k int) string {
+		parts := []string{}
+		pm := r.Perm(6)
+		for i := 0; i < k && i < 6; i++ {
+			key := fmt.Sprint(pm[i])
+			if r.P(1, 3) {
+				key = "'" + key + "'"
+			}
+			parts = append(parts, fmt.Sprintf("%s: '%s%d'", key, all[r.Intn(len(all))], i))
+		}
+		return "{" + strings.Join(parts, ", ") + "}"
+	}
 	frags := []string{
+		"{{ " + ihash(r.Range(2, 6)) + "|merge(" + ihash(r.Range(2, 6)) + ")|json_encode }}",
+		"{% for k, v in " + ihash(r.Range(2, 6)) + "|merge(" + ihash(r.Range(2, 6)) + ") %}{{ k }}={{ v }};{% endfor %}",
+		"{{ ik|merge(ik2)|json_encode }}", "{% for k, v in ik|merge(ik2) %}{{ k }}={{ v }};{% endfor %}", "{{ " + ihash(r.Range(2, 6)) + "|merge(ik3)|json_encode }}", "{{ ik3|merge(" + ihash(r.Range(3, 6)) + ")|keys|join(',') }}",
+		"{{ ik3|merge(ik4)|join(',') }}", "{{ m|merge(ik3)|keys|join(',') }}", "{{ ik3|merge(m)|json_encode }}", "{{ " + ihash(r.Range(3, 6)) + "|keys|join(',') }}{{ " + ihash(r.Range(3, 6)) + "|first }}", "{{ ik3|reverse|join(',') }}{{ ik3|sort|join(',') }}",
 		"{% for k, v in m %}{{ k }}={{ v }};{% endfor %}",
 		"{% for v in m %}{{ v }}.{{ loop.index }}{{ loop.last ? '!' : ',' }}{% endfor %}",
 		"{% for k, v in " + hash(r.Range(2, 9)) + " %}{{ k }}:{{ v }} {% endfor %}",
@@ -151,6 +168,13 @@ func (c c03Case) buildCtx(variant uint64) map[string]interface{} {
 	for _, i := range r.Perm(len(c.keys)) {
 		ik[c.vals[i]] = c.keys[i]
 	}
+	// maps with small integer keys that collide with one another and with 0-based literal keys
+	ik2, ik3, ik4 := map[int]string{}, map[int]string{}, map[int]interface{}{}
+	for _, i := range r.Perm(len(c.keys)) {
+		ik2[c.vals[i]] = "two-" + c.keys[i]
+		ik3[i] = "three-" + c.keys[i]
+		ik4[(i+1)%len(c.keys)] = "four-" + c.keys[i]
+	}
 	nested := map[string]interface{}{}
 	for _, i := range r.Perm(len(c.keys)) {
 		inner := map[string]interface{}{}
@@ -183,7 +207,7 @@ func (c c03Case) buildCtx(variant uint64) map[string]interface{} {
 		mp[c.keys[i]] = x
 	}
 	return map[string]interface{}{
-		"m": m, "m2": m2, "tm": tm, "tm2": tm2, "ti": ti, "ik": ik, "nested": nested,
+		"m": m, "m2": m2, "tm": tm, "tm2": tm2, "ti": ti, "ik": ik, "ik2": ik2, "ik3": ik3, "ik4": ik4, "nested": nested,
 		"p": pi, "ps": ps, "pp": ppi, "st": c03Struct{Name: "sv", P: pi, S: s}, "pst": &c03Struct{Name: "psv"}, "lp": []interface{}{pi}, "mp": mp,
 		"d": time.Date(2024, 3, 5, 14, 7, 9, 0, time.UTC), "ts": 1709647629,
 	}
